@@ -883,6 +883,15 @@ func translateExt(fset *token.FileSet, load fileLoader, sp spec, known map[strin
 			primBinders = append(primBinders, "(growCap : Int → Int → Int)")
 			continue
 		}
+		if p == "maxFloat32" { // math.MaxFloat32 under spec.FloatAbs: an abstract value of the float type (nothing assumed about it)
+			if sp.FloatAbs == "" {
+				x.bad(fd, "spec.Prims maxFloat32 needs spec.FloatAbs")
+			}
+			x.prims[p] = true
+			x.env["maxFloat32"] = &xty{k: kOrd, name: sp.FloatAbs}
+			primBinders = append(primBinders, fmt.Sprintf("(maxFloat32 : %s)", sp.FloatAbs))
+			continue
+		}
 		if lt, ok := primTypes[p]; ok { // polymorphic library function, used by name
 			x.prims[p] = true
 			x.poly = x.poly || strings.Contains(lt, "Go.Any α")
@@ -1099,7 +1108,17 @@ func translateExt(fset *token.FileSet, load fileLoader, sp spec, known map[strin
 	for _, r := range x.results {
 		hasErr = hasErr || r.k == kErr || r.k == kErrOpt
 	}
-	if !x.hasExit && len(x.extras) == 0 && len(pre) == 0 && fd.Recv != nil && sp.Frag == nil && !hasErr && len(x.tparams) == 0 && sp.Name == "" {
+	// (type parameters are implicit binders; those of a method are determined by its explicit receiver argument when the
+	// receiver's struct mentions all of them)
+	recvDetermines := fd.Recv != nil && x.recv != "" && x.env[x.recv] != nil
+	if recvDetermines {
+		tv := map[string]bool{}
+		x.env[x.recv].tvars(tv)
+		for _, p := range x.tparams {
+			recvDetermines = recvDetermines && tv[p]
+		}
+	}
+	if !x.hasExit && len(x.extras) == 0 && len(pre) == 0 && fd.Recv != nil && sp.Frag == nil && !hasErr && (len(x.tparams) == 0 || recvDetermines) && sp.Name == "" {
 		ft := &xty{k: kFunc, results: x.results}
 		for _, p := range fd.Type.Params.List {
 			for range p.Names {
